@@ -85,6 +85,18 @@ func call(fn, args string, in []byte) (res string) {
 	if res2 != res && !(strings.HasPrefix(res, "panic") && !strings.HasPrefix(res2, "panic")) {
 		return res + "|DEPENDS-ON-CAPACITY(" + res2 + ")"
 	}
+	// ... and at every misalignment of the slice's base address (a stream that is buf[k:] of a read buffer or of a
+	// PES payload does not start on a machine-word boundary; a fresh make() always does)
+	if len(in) >= 8 {
+		big := make([]byte, len(in)+16)
+		for k := 1; k < 8; k++ {
+			d := big[k : k+len(in) : k+len(in)]
+			copy(d, in)
+			if r3 := callOn(fn, args, d); r3 != res {
+				return res + "|DEPENDS-ON-ALIGNMENT(base offset " + strconv.Itoa(k) + ": " + r3 + ")"
+			}
+		}
+	}
 	return res
 }
 
